@@ -117,6 +117,8 @@ type Exec struct {
 	cfgCache    map[*ssa.Function]*cfgInfo
 	lockMode    bool
 	sequential  bool
+	concrete    bool
+	inst        *Instance
 	assumed     map[*Term]bool
 }
 
@@ -407,10 +409,50 @@ func (x *Exec) newCell(name string, t types.Type, pos token.Pos) *Cell {
 	return &Cell{Name: name, Typ: t, ID: x.cellSeq, Pos: int(pos)}
 }
 
+// runConcrete executes a function along a single path: used for instantiated units in which
+// every branch condition folds to a constant (loops are simply followed, no invariants).
+func (x *Exec) runConcrete(fr *Frame, st *State) {
+	fn := fr.fn
+	fr.cfg = x.cfgOf(fn)
+	b := fn.Blocks[0]
+	var prev *ssa.BasicBlock
+	for steps := 0; ; steps++ {
+		if steps > 200000 {
+			x.unsup("unroll: step limit exceeded in %s", fn.Name())
+		}
+		var edges []edgeIn
+		if prev != nil {
+			edges = []edgeIn{{prev, st}}
+		}
+		succs := x.execBlock(fr, b, st, edges, []*Term{tTrue})
+		if len(succs) == 0 {
+			return
+		}
+		var next *succOut
+		for i := range succs {
+			if succs[i].st.pc == tFalse {
+				continue
+			}
+			if next != nil {
+				x.unsup("unroll: branch condition in %s is not concrete (%s)", fn.Name(), x.env.posStr(b.Instrs[len(b.Instrs)-1].Pos()))
+			}
+			next = &succs[i]
+		}
+		if next == nil {
+			return
+		}
+		prev, b, st = b, next.to, next.st
+	}
+}
+
 func (x *Exec) runBody(fr *Frame, st *State) {
 	fn := fr.fn
 	if len(fn.Blocks) == 0 {
 		x.unsup("function %s has no body", fn.Name())
+	}
+	if x.concrete {
+		x.runConcrete(fr, st)
+		return
 	}
 	fr.cfg = x.cfgOf(fn)
 	in := map[*ssa.BasicBlock][]edgeIn{}
